@@ -21,6 +21,8 @@ type Engine struct {
 	Header string
 	// CaseType is the Gallina type of one case, Agree / PropOk the verdict functions
 	CaseType, Agree, PropOk string
+	// Extra: further named verdict functions printed as kv_<name> (indices where the function is false)
+	Extra map[string]string
 	// Gen produces the i-th case (JSON-serialisable input) from the PRNG
 	Gen func(r *rand.Rand, i int, thorough bool) interface{}
 	// New returns an empty input value to unmarshal a replayed case into
@@ -63,7 +65,13 @@ func main() {
 	corpus := fs.String("corpus", "", "directory of *.json(l) corpus cases run before the generated ones")
 	thorough := fs.Bool("thorough", false, "thorough tier sizes")
 	shard := fs.Int("shardsize", 400, "cases per Cases_<k>.v file")
+	propok := fs.String("propok", "", "override the property monitor function (engines serving several properties)")
 	_ = fs.Parse(os.Args[2:])
+	if *propok != "" {
+		ecopy := *e
+		ecopy.PropOk = *propok
+		e = &ecopy
+	}
 	os.Exit(runEngine(os.Args[1], e, *seed, *n, *out, *replay, *corpus, *thorough, *shard))
 }
 
@@ -164,6 +172,9 @@ func runEngine(name string, e *Engine, seed int64, n int, out, replay, corpus st
 		fmt.Fprintf(&sb, "Definition kv_diff := Eval vm_compute in failing %s cases.\n", e.Agree)
 		fmt.Fprintf(&sb, "Definition kv_viol := Eval vm_compute in failing %s cases.\n", e.PropOk)
 		fmt.Fprintf(&sb, "Print kv_diff.\nPrint kv_viol.\n")
+		for name, fn := range e.Extra {
+			fmt.Fprintf(&sb, "Definition kv_%s := Eval vm_compute in failing %s cases.\nPrint kv_%s.\n", name, fn, name)
+		}
 		fname := filepath.Join(out, fmt.Sprintf("Cases_%d.v", nshards))
 		if err := ioutil.WriteFile(fname, []byte(sb.String()), 0o644); err != nil {
 			panic(err)
